@@ -1,21 +1,32 @@
 package main
 
+import (
+	"fmt"
+	"go/types"
+	"strings"
+
+	"golang.org/x/tools/go/ssa"
+)
+
 func init() {
 	register(&Property{
 		ID:        "C07",
 		Title:     "Transactions are all-or-nothing and every failure reaches the caller",
-		Technique: "static analysis: SSA branch-fact dataflow (no nil return under a known error), discarded-error-result rule over resolved callees, error-holder consultation on all paths, must-pass ordering in the Update/Batch closures, who-may-call rule for post-commit work",
+		Technique: "static analysis: SSA branch-fact dataflow (no nil return under a known error), discarded-error-result rule over resolved callees, error-holder consultation on all paths, must-pass ordering in the Update/Batch closures, call-graph who-may-call rule for post-commit work",
 		LevelText: "Structural necessary conditions decided for every function and path of boltz/ast/objectz/zitiql: no error is replaced by success, no error result is dropped, the ErrorHolder chain is consulted before success, pre-commit work precedes success inside the bolt closure, post-commit work is reachable only through tx.OnCommit. The rollback itself is bbolt's and is trusted.",
 		LevelNote: "Trusted: Go type checker, x/tools SSA (v0.29.0), bbolt's rollback-on-error, tabled exceptions in checker/rules_errors.go. Not decided: byte-level state after rollback, failure injection at arbitrary storage calls.",
 		DesignRef: "DESIGN.md C07",
-		Explanation: "All non-generated functions are enumerated from SSA; each rule is applied to every function/call site and the obligations are keyed rule+construct.",
-		Trusted:   []string{"go/types", "golang.org/x/tools/go/ssa v0.29.0", "bbolt transaction rollback", "exception tables in checker/"},
+		Explanation: "All non-generated functions of ast, boltz, objectz, zitiql are enumerated from SSA. SWALLOW: for every function with an error result, a forward must-dataflow of branch facts decides at each return whether some error value is known non-nil while nil is returned. DROP: every call whose signature has an error result must bind and use it. HOLDER: for every error-returning function, every TypedBucket/ErrorHolder that was mutated or has escaped must be consulted (HasError/GetError/.Err) on every path to a success return. TXFN: in the closures handed to bbolt DB.Update/Batch, setTx < fn(ctx) < runPreCommitActions on every path to a nil return. POSTCOMMIT: greatest fixpoint of 'reachable only via a function value registered with bbolt Tx.OnCommit' must contain every function that invokes ProcessPostCommit, runs commit actions or tx-complete listeners.",
+		Trusted:   []string{"go/types", "golang.org/x/tools/go/ssa v0.29.0", "bbolt transaction rollback and OnCommit semantics", "exception tables in checker/rules_errors.go"},
 		Rules:     rulesC07,
 		Controls: []controlExpect{
 			{"C07.SWALLOW", "zzControlBad_C07_SWALLOW", true},
 			{"C07.SWALLOW", "zzControlGood_C07_SWALLOW", false},
 			{"C07.DROP", "zzControlBad_C07_DROP", true},
 			{"C07.DROP", "zzControlGood_C07_DROP", false},
+			{"C07.HOLDER", "zzControlBad_C07_HOLDER", true},
+			{"C07.HOLDER", "zzControlGood_C07_HOLDER", false},
+			{"C07.POSTCOMMIT", "zzControlBad_C07_POSTCOMMIT", true},
 		},
 	})
 }
@@ -26,4 +37,865 @@ func rulesC07(c *Ctx) {
 	c.Floor("C07.SWALLOW", 120)
 	ruleDrop(c, "C07.DROP", fns)
 	c.Floor("C07.DROP", 150)
+	ruleHolder(c, "C07.HOLDER", c.prodFuncs("boltz"), nil)
+	c.Floor("C07.HOLDER", 15)
+	ruleFirstErrorWins(c, "C07.FIRSTERR")
+	c.Floor("C07.FIRSTERR", 8)
+	ruleTxFn(c, "C07.TXFN")
+	c.Floor("C07.TXFN", 8)
+	rulePostCommit(c, "C07.POSTCOMMIT")
+	c.Floor("C07.POSTCOMMIT", 3)
+}
+
+// ---- C07.HOLDER ------------------------------------------------------------------------------
+
+type holderInfo struct {
+	c           *Ctx
+	typedBucket *types.Named
+	holderImpl  *types.Named
+	errField    *types.Var
+	mutators    map[*types.Func]bool // TypedBucket/ErrorHolderImpl methods (no error result) that may record an error
+	chainable   map[*types.Func]bool // methods returning their receiver
+	consults    map[string]bool
+}
+
+func newHolderInfo(c *Ctx) *holderInfo {
+	p := c.P
+	h := &holderInfo{c: c, mutators: map[*types.Func]bool{}, chainable: map[*types.Func]bool{}}
+	h.typedBucket = p.Named("boltz", "TypedBucket")
+	h.holderImpl = p.ExtNamed("github.com/openziti/foundation/v2/errorz", "ErrorHolderImpl")
+	st := h.holderImpl.Underlying().(*types.Struct)
+	for i := 0; i < st.NumFields(); i++ {
+		if st.Field(i).Name() == "Err" {
+			h.errField = st.Field(i)
+		}
+	}
+	if h.errField == nil {
+		panic(anchorLost{"errorz.ErrorHolderImpl.Err"})
+	}
+	// which TypedBucket methods may record an error? fixpoint over static calls between them
+	type minfo struct {
+		fn    *ssa.Function
+		calls []*types.Func
+		sets  bool
+	}
+	infos := map[*types.Func]*minfo{}
+	for i := 0; i < h.typedBucket.NumMethods(); i++ {
+		m := h.typedBucket.Method(i)
+		fn := p.SSA.FuncValue(m)
+		if fn == nil || fn.Blocks == nil {
+			continue
+		}
+		mi := &minfo{fn: fn}
+		infos[m] = mi
+		for _, f := range allFuncsWithAnon(fn) {
+			for _, b := range f.Blocks {
+				for _, in := range b.Instrs {
+					switch x := in.(type) {
+					case *ssa.Store:
+						if fld, _ := fieldOfAddr(x.Addr); sameVar(fld, h.errField) {
+							mi.sets = true
+						}
+					case ssa.CallInstruction:
+						if cal, _ := calleeOf(x.Common()); cal != nil {
+							if cal.Name() == "SetError" && namedOf(recvType(cal)) == h.holderImpl {
+								mi.sets = true
+							}
+							mi.calls = append(mi.calls, cal)
+						}
+					}
+				}
+			}
+		}
+		// chainable: every return returns the receiver parameter
+		if fn.Signature.Results().Len() == 1 && len(fn.Params) > 0 {
+			all := true
+			n := 0
+			for _, r := range returnsOf(fn) {
+				n++
+				if len(r.Results) != 1 || r.Results[0] != ssa.Value(fn.Params[0]) {
+					all = false
+				}
+			}
+			if all && n > 0 {
+				h.chainable[m] = true
+			}
+		}
+	}
+	for changed := true; changed; {
+		changed = false
+		for _, mi := range infos {
+			if mi.sets {
+				continue
+			}
+			for _, cal := range mi.calls {
+				if o := infos[cal]; o != nil && o.sets {
+					mi.sets = true
+					changed = true
+					break
+				}
+			}
+		}
+	}
+	for m, mi := range infos {
+		if mi.sets && errorResultIndex(m.Type().(*types.Signature)) < 0 {
+			h.mutators[m] = true
+		}
+	}
+	return h
+}
+
+func recvType(f *types.Func) types.Type {
+	if r := f.Type().(*types.Signature).Recv(); r != nil {
+		return r.Type()
+	}
+	return types.Typ[types.Invalid]
+}
+
+// holderBase strips the embedded *ErrorHolderImpl load: for v = *(&x.ErrorHolderImpl) returns x.
+func (h *holderInfo) holderBase(v ssa.Value) ssa.Value {
+	for i := 0; i < 4; i++ {
+		if f, base := loadedField(v); f != nil && f.Embedded() && namedOf(f.Type()) == h.holderImpl {
+			v = base
+			continue
+		}
+		if fa, ok := v.(*ssa.FieldAddr); ok {
+			if f, base := fieldOfAddr(fa); f != nil && f.Embedded() && namedOf(f.Type()) == h.holderImpl {
+				v = base
+				continue
+			}
+		}
+		if ct, ok := v.(*ssa.ChangeType); ok {
+			v = ct.X
+			continue
+		}
+		if mi, ok := v.(*ssa.MakeInterface); ok {
+			v = mi.X
+			continue
+		}
+		break
+	}
+	return v
+}
+
+func (h *holderInfo) isHolderType(t types.Type) bool {
+	n := namedOf(t)
+	if n == nil {
+		return false
+	}
+	if n == h.typedBucket || n == h.holderImpl {
+		return true
+	}
+	return false
+}
+
+// consultOf: if instr reads the error state of a holder, return the holder base value.
+func (h *holderInfo) consultOf(in ssa.Instruction) ssa.Value {
+	switch x := in.(type) {
+	case *ssa.UnOp:
+		if f, base := loadedField(x); f != nil && sameVar(f, h.errField) {
+			return h.holderBase(base)
+		}
+	case ssa.CallInstruction:
+		cc := x.Common()
+		name := ""
+		if cc.IsInvoke() {
+			name = cc.Method.Name()
+			if name == "HasError" || name == "GetError" {
+				return h.holderBase(cc.Value)
+			}
+			return nil
+		}
+		if cal, _ := calleeOf(cc); cal != nil && len(cc.Args) > 0 {
+			name = cal.Name()
+			if (name == "HasError" || name == "GetError") && namedOf(recvType(cal)) == h.holderImpl {
+				return h.holderBase(cc.Args[0])
+			}
+		}
+	}
+	return nil
+}
+
+// ruleHolder: in every function with an error result, a holder that has been mutated (or has
+// escaped and may have been mutated by a later call) must be consulted before any success return.
+func ruleHolder(c *Ctx, rule string, fns []*ssa.Function, only map[string]bool) {
+	h := newHolderInfo(c)
+	c.Note(fmt.Sprintf("%s: %d TypedBucket methods may record an error without returning it (mutators), %d are chainable", rule, len(h.mutators), len(h.chainable)))
+	for _, fn := range fns {
+		ei := errorResultIndex(fn.Signature)
+		if ei < 0 {
+			continue
+		}
+		name := FnName(fn)
+		if only != nil && !only[name] {
+			continue
+		}
+		// alias classes: chainable call results alias their receiver
+		alias := map[ssa.Value]ssa.Value{}
+		var find func(v ssa.Value) ssa.Value
+		find = func(v ssa.Value) ssa.Value {
+			v = h.holderBase(v)
+			for {
+				n, ok := alias[v]
+				if !ok || n == v {
+					return v
+				}
+				v = h.holderBase(n)
+			}
+		}
+		for _, ci := range callsIn(fn) {
+			if call, ok := ci.(*ssa.Call); ok {
+				if cal, _ := calleeOf(call.Common()); cal != nil && h.chainable[cal] && len(call.Call.Args) > 0 {
+					alias[call] = call.Call.Args[0]
+				}
+			}
+		}
+		// collect holders with mutation points and retainers
+		type hstate struct {
+			mut []ssa.Instruction // explicit mutation points
+		}
+		holders := map[ssa.Value]*hstate{}
+		get := func(v ssa.Value) *hstate {
+			v = find(v)
+			s := holders[v]
+			if s == nil {
+				s = &hstate{}
+				holders[v] = s
+			}
+			return s
+		}
+		// derived buckets: a *TypedBucket result of a call that takes a holder as receiver/argument
+		// is put in the same class (error state propagates to derived buckets at derivation time)
+		for _, ci := range callsIn(fn) {
+			call, ok := ci.(*ssa.Call)
+			if !ok || !h.isHolderType(call.Type()) {
+				continue
+			}
+			for _, a := range call.Call.Args {
+				if h.isHolderType(a.Type()) && !isNilConst(a) {
+					if cal, _ := calleeOf(call.Common()); cal != nil && cal.Name() == "NewTypedBucket" {
+						continue // fresh holder; parent retained for Tx() only (checked by C07.HOLDER.PARENT)
+					}
+					alias[call] = a
+					break
+				}
+			}
+			if call.Call.IsInvoke() && h.isHolderType(call.Call.Value.Type()) {
+				alias[call] = call.Call.Value
+			}
+		}
+		// field cells: a holder stored into x.f is the same holder when loaded back from x.f
+		type cell struct {
+			base ssa.Value
+			fld  int
+		}
+		cells := map[cell]ssa.Value{}
+		retainers := map[ssa.Value]ssa.Value{} // retaining object -> holder
+		holderOperand := func(v ssa.Value) ssa.Value {
+			if mi, ok := v.(*ssa.MakeInterface); ok {
+				v = mi.X
+			}
+			if h.isHolderType(v.Type()) && !isNilConst(v) {
+				return v
+			}
+			return nil
+		}
+		for _, b := range fn.Blocks {
+			for _, in := range b.Instrs {
+				if st, ok := in.(*ssa.Store); ok {
+					if hv := holderOperand(st.Val); hv != nil {
+						if fa, ok := st.Addr.(*ssa.FieldAddr); ok {
+							if f, _ := fieldOfAddr(fa); f != nil && !f.Embedded() {
+								cells[cell{fa.X, fa.Field}] = hv
+								retainers[fa.X] = hv
+							}
+						}
+					}
+				}
+			}
+		}
+		for _, b := range fn.Blocks {
+			for _, in := range b.Instrs {
+				if u, ok := in.(*ssa.UnOp); ok {
+					if fa, ok := u.X.(*ssa.FieldAddr); ok {
+						if hv, ok := cells[cell{fa.X, fa.Field}]; ok {
+							alias[u] = hv
+						}
+					}
+				}
+			}
+		}
+		for _, b := range fn.Blocks {
+			for _, in := range b.Instrs {
+				x, ok := in.(ssa.CallInstruction)
+				if !ok {
+					continue
+				}
+				cc := x.Common()
+				cal, _ := calleeOf(cc)
+				args := cc.Args
+				if cc.IsInvoke() {
+					if cc.Method.Name() == "SetError" {
+						if base := h.holderBase(cc.Value); true {
+							if _, isCall := in.(*ssa.Call); isCall && hasRealReferrer(in.(*ssa.Call)) {
+								// result tested by the caller: acts as a consultation
+							} else if hv := holderOperand(base); hv != nil || isHolderIface(base.Type()) {
+								get(base).mut = append(get(base).mut, in)
+							}
+						}
+					}
+				} else if cal != nil && len(args) > 0 && cal.Type().(*types.Signature).Recv() != nil {
+					recv := args[0]
+					if h.mutators[cal] && h.isHolderType(recv.Type()) {
+						get(recv).mut = append(get(recv).mut, in)
+					}
+					if cal.Name() == "SetError" && namedOf(recvType(cal)) == h.holderImpl {
+						base := h.holderBase(recv)
+						if call, isCall := in.(*ssa.Call); isCall && hasRealReferrer(call) {
+							// result tested by the caller: acts as a consultation
+						} else if h.isHolderType(base.Type()) {
+							get(base).mut = append(get(base).mut, in)
+						}
+					}
+					args = args[1:]
+				}
+				if errorResultIndex(cc.Signature()) >= 0 {
+					continue // the callee reports through its own error result (it is itself subject to this rule)
+				}
+				for _, a := range args {
+					if hv := holderOperand(a); hv != nil {
+						if cal != nil && cal.Name() == "NewTypedBucket" {
+							continue
+						}
+						get(hv).mut = append(get(hv).mut, in)
+						if call, ok := in.(*ssa.Call); ok && retains(call.Type()) && !h.isHolderType(call.Type()) {
+							retainers[call] = hv
+						}
+					}
+				}
+				// calls on / with a retaining object may record into the holder it retains
+				for i, a := range cc.Args {
+					_ = i
+					if hv, ok := retainers[a]; ok {
+						get(hv).mut = append(get(hv).mut, in)
+					}
+				}
+				if cc.IsInvoke() {
+					if hv, ok := retainers[cc.Value]; ok {
+						get(hv).mut = append(get(hv).mut, in)
+					}
+				}
+			}
+		}
+		if len(holders) == 0 {
+			continue
+		}
+		c.Analysed(name)
+		fi := ComputeFacts(fn)
+		for hv, st := range holders {
+			if len(st.mut) == 0 {
+				continue
+			}
+			// the receiver of a TypedBucket method is the caller's holder: its caller consults it
+			// only through the returned error, so the method itself must return the holder's error.
+			construct := name + ": holder " + describeValue(hv)
+			isConsult := func(in ssa.Instruction) bool {
+				b := h.consultOf(in)
+				return b != nil && find(b) == hv
+			}
+			points := st.mut
+			bad := false
+			for _, pt := range points {
+				ri := reachWithoutFrom(fn, pt, isConsult)
+				for _, r := range returnsOf(fn) {
+					if !ri.entryReach[r.Block()] && !(r.Block() == pt.Block() && instrIndex(r) > instrIndex(pt)) {
+						continue
+					}
+					if r.Block() == pt.Block() && instrIndex(r) > instrIndex(pt) {
+						// same block: consult between?
+						blocked := false
+						for i := instrIndex(pt) + 1; i < instrIndex(r); i++ {
+							if isConsult(r.Block().Instrs[i]) {
+								blocked = true
+							}
+						}
+						if blocked {
+							continue
+						}
+					} else if !ri.Reaches(r) {
+						continue
+					}
+					k := classifyErr(fi, r.Block(), r.Results[ei], 0)
+					if k == errNonNil {
+						continue
+					}
+					if fi.HoldsWhere(r.Block(), func(f Fact) bool {
+						return f.Kind == "nonnil" && !f.Pol && h.isHolderType(f.V.Type()) && find(f.V) == hv
+					}) {
+						continue // the (derived) holder is nil here: nothing was recorded through it
+					}
+					// returning the holder itself through another route (e.g. return x.Err) is a consult and was blocked above
+					bad = true
+					c.BadPath(rule, construct, c.P.Pos(r.Pos()),
+						fmt.Sprintf("a %s return is reachable after %s without consulting the holder's error (HasError/GetError/.Err): a recorded failure would be reported as success",
+							map[errKind]string{errNil: "nil-error", errMaybe: "possibly-nil"}[k], describeInstr(pt)),
+						fmt.Sprintf("%s at %s -> return at %s", describeInstr(pt), c.P.Pos(pt.Pos()), c.P.Pos(r.Pos())))
+					break
+				}
+				if bad {
+					break
+				}
+			}
+			if !bad {
+				c.OK(rule, construct, c.P.Pos(fn.Pos()), fmt.Sprintf("%d mutation/escape point(s); every success return after them is preceded by a consultation of the holder", len(points)))
+			}
+		}
+	}
+}
+
+func describeInstr(in ssa.Instruction) string {
+	if ci, ok := in.(ssa.CallInstruction); ok {
+		if f, _ := calleeOf(ci.Common()); f != nil {
+			return "call " + shortObj(f)
+		}
+		return "call through " + ci.Common().Value.Name()
+	}
+	if _, ok := in.(*ssa.Store); ok {
+		return "store"
+	}
+	return strings.SplitN(in.String(), "(", 2)[0]
+}
+
+// ruleFirstErrorWins: a direct assignment h.Err = ... (not through SetError) must be dominated by
+// the knowledge that h.Err is nil, so that a later success cannot erase an earlier failure.
+func ruleFirstErrorWins(c *Ctx, rule string) {
+	h := newHolderInfo(c)
+	proceed := c.P.Method("boltz", "TypedBucket", "ProceedWithSet")
+	cg := c.P.CallGraph()
+	type site struct {
+		fn    *ssa.Function
+		store *ssa.Store
+		base  ssa.Value
+	}
+	var sites []site
+	for _, fn := range c.prodFuncs("boltz") {
+		for _, b := range fn.Blocks {
+			for _, in := range b.Instrs {
+				if st, ok := in.(*ssa.Store); ok {
+					if fld, base := fieldOfAddr(st.Addr); sameVar(fld, h.errField) {
+						if _, fresh := base.(*ssa.Alloc); fresh {
+							continue // composite-literal initialisation of a new holder
+						}
+						sites = append(sites, site{fn, st, h.holderBase(base)})
+					}
+				}
+			}
+		}
+	}
+	// wrappers: a method whose single return is ProceedWithSet on a bucket loaded from a field of its receiver
+	wrappers := map[*types.Func]*types.Var{}
+	for _, fn := range c.prodFuncs("boltz") {
+		rs := returnsOf(fn)
+		if len(rs) != 1 || len(rs[0].Results) != 1 || len(fn.Params) == 0 || fn.Object() == nil {
+			continue
+		}
+		if call, ok := rs[0].Results[0].(*ssa.Call); ok {
+			if cal, _ := calleeOf(call.Common()); cal == proceed && len(call.Call.Args) > 0 {
+				if fld, b := loadedField(call.Call.Args[0]); fld != nil && b == ssa.Value(fn.Params[0]) {
+					wrappers[fn.Object().(*types.Func)] = fld
+				}
+			}
+		}
+	}
+	guarded := func(fn *ssa.Function, at ssa.Instruction, base ssa.Value) (bool, string) {
+		fi := ComputeFacts(fn)
+		ok := fi.HoldsWhere(at.Block(), func(f Fact) bool {
+			if f.Kind == "true" && f.Pol {
+				if call, isCall := f.V.(*ssa.Call); isCall {
+					if cal, _ := calleeOf(call.Common()); cal != nil && wrappers[cal] != nil && len(call.Call.Args) > 0 {
+						if fld, b := loadedField(base); sameVar(fld, wrappers[cal]) && b == call.Call.Args[0] {
+							return true
+						}
+					}
+				}
+			}
+			// ProceedWithSet(...) true on the same bucket
+			if f.Kind == "true" && f.Pol {
+				if call, isCall := f.V.(*ssa.Call); isCall {
+					if cal, _ := calleeOf(call.Common()); cal == proceed && len(call.Call.Args) > 0 && h.holderBase(call.Call.Args[0]) == base {
+						return true
+					}
+				}
+			}
+			if f.Kind == "true" && !f.Pol {
+				if call, isCall := f.V.(*ssa.Call); isCall {
+					if b := h.consultOf(call); b != nil && b == base {
+						if cal, _ := calleeOf(call.Common()); cal != nil && cal.Name() == "HasError" {
+							return true
+						}
+					}
+				}
+			}
+			// bucket.Err == nil
+			if f.Kind == "nonnil" && !f.Pol {
+				if fld, b := loadedField(f.V); sameVar(fld, h.errField) && h.holderBase(b) == base {
+					return true
+				}
+			}
+			return false
+		})
+		return ok, fi.Describe(at.Block())
+	}
+	for _, s := range sites {
+		name := FnName(s.fn)
+		c.Analysed(name)
+		if ok, _ := guarded(s.fn, s.store, s.base); ok {
+			c.OK(rule, name, c.P.Pos(s.store.Pos()), "the direct assignment to .Err is dominated by ProceedWithSet / Err == nil / !HasError on the same holder")
+			continue
+		}
+		// callers-hold for private helpers whose receiver is the holder
+		if len(s.fn.Params) > 0 && s.base == ssa.Value(s.fn.Params[0]) && !s.fn.Object().Exported() {
+			all, n := true, 0
+			var missing string
+			for _, caller := range cg.callers[s.fn] {
+				for _, ci := range callsIn(caller) {
+					if cal, _ := calleeOf(ci.Common()); cal == s.fn.Object() && len(ci.Common().Args) > 0 {
+						n++
+						if ok, _ := guarded(caller, ci, h.holderBase(ci.Common().Args[0])); !ok {
+							all = false
+							missing = FnName(caller) + " at " + c.P.Pos(ci.Pos())
+						}
+					}
+				}
+			}
+			if all && n > 0 {
+				c.OK(rule, name, c.P.Pos(s.store.Pos()), fmt.Sprintf("private helper: all %d call sites hold the Err==nil guard (callers-hold)", n))
+				continue
+			}
+			c.Bad(rule, name, c.P.Pos(s.store.Pos()), "direct assignment to .Err without an Err==nil guard; unguarded caller: "+missing)
+			continue
+		}
+		c.Bad(rule, name, c.P.Pos(s.store.Pos()), "direct assignment to .Err is not dominated by ProceedWithSet / Err == nil / !HasError: a later success can erase an earlier failure")
+	}
+}
+
+// ---- C07.TXFN --------------------------------------------------------------------------------
+
+func ruleTxFn(c *Ctx, rule string) {
+	p := c.P
+	mc := p.Named("boltz", "MutateContext")
+	setTx := p.Method("boltz", "MutateContext", "setTx")
+	runPre := p.Method("boltz", "MutateContext", "runPreCommitActions")
+	dbUpdate := p.ExtMethod(bboltPath, "DB", "Update")
+	dbBatch := p.ExtMethod(bboltPath, "DB", "Batch")
+	isFnCall := func(in ssa.Instruction) bool {
+		ci, ok := in.(ssa.CallInstruction)
+		if !ok || ci.Common().IsInvoke() || ci.Common().StaticCallee() != nil {
+			return false
+		}
+		sig := ci.Common().Signature()
+		return sig.Params().Len() == 1 && types.Identical(sig.Params().At(0).Type(), mc) && errorResultIndex(sig) == 0 && sig.Results().Len() == 1
+	}
+	for _, pair := range []struct {
+		method string
+		bolt   *types.Func
+	}{{"Update", dbUpdate}, {"Batch", dbBatch}} {
+		outer := p.SSAFunc(p.Method("boltz", "DbImpl", pair.method))
+		name := FnName(outer)
+		c.Analysed(name)
+		var boltCall ssa.CallInstruction
+		for _, ci := range callsIn(outer) {
+			if isCallTo(ci, pair.bolt) {
+				boltCall = ci
+			}
+		}
+		if boltCall == nil {
+			c.Bad(rule, name+": bolt transaction", c.P.Pos(outer.Pos()), "no call to bbolt DB."+pair.method+" found")
+			continue
+		}
+		inner := anonFromArg(boltCall.Common().Args[len(boltCall.Common().Args)-1])
+		if inner == nil {
+			c.Undecided(rule, name+": closure", c.P.Pos(boltCall.Pos()), "the function passed to bbolt is not a literal closure; cannot analyse its paths")
+			continue
+		}
+		c.Analysed(FnName(inner))
+		// (1) outer: every return is preceded by the bolt call or a direct fn(ctx) (nested use)
+		ri := reachWithout(outer, func(in ssa.Instruction) bool { return in == ssa.Instruction(boltCall) || isFnCall(in) })
+		okOuter := true
+		for _, r := range returnsOf(outer) {
+			if ri.Reaches(r) {
+				okOuter = false
+				c.BadPath(rule, name+": runs the body", c.P.Pos(r.Pos()), "a return is reachable without running the caller's function (neither inside a bolt transaction nor directly for nested use)", ri.PathTo(r))
+			}
+		}
+		if okOuter {
+			c.OK(rule, name+": runs the body", c.P.Pos(outer.Pos()), "every return is preceded by the bolt transaction or, for nested use, a direct call of fn(ctx)")
+		}
+		// (2) defer ctx.setTx(nil) dominates the bolt call
+		hasDefer := false
+		for _, ci := range callsIn(outer) {
+			if d, ok := ci.(*ssa.Defer); ok && isCallTo(d, setTx) && len(d.Call.Args) == 1 && isNilConst(d.Call.Args[0]) {
+				if d.Block().Dominates(boltCall.Block()) {
+					hasDefer = true
+				}
+			}
+		}
+		c.Check(hasDefer, rule, name+": defer setTx(nil)", c.P.Pos(boltCall.Pos()), "deferred setTx(nil) dominates the bolt call", "no deferred ctx.setTx(nil) dominating the bolt call: the context keeps a dead transaction")
+		// (3) inner ordering on all paths to a possibly-successful return
+		fi := ComputeFacts(inner)
+		var succ []*ssa.Return
+		for _, r := range returnsOf(inner) {
+			if classifyErr(fi, r.Block(), r.Results[0], 0) != errNonNil {
+				succ = append(succ, r)
+			}
+		}
+		isSetTx := func(in ssa.Instruction) bool { return isCallTo(in, setTx) }
+		isRunPre := func(in ssa.Instruction) bool { return isCallTo(in, runPre) }
+		check := func(what string, blocker func(ssa.Instruction) bool, targets func(ssa.Instruction) bool, okWhy, badWhy string) {
+			ri := reachWithout(inner, blocker)
+			bad := false
+			n := 0
+			for _, b := range inner.Blocks {
+				for _, in := range b.Instrs {
+					if targets(in) {
+						n++
+						if ri.Reaches(in) {
+							bad = true
+							c.BadPath(rule, FnName(inner)+": "+what, c.P.Pos(in.Pos()), badWhy, ri.PathTo(in))
+						}
+					}
+				}
+			}
+			if n == 0 {
+				c.Bad(rule, FnName(inner)+": "+what, c.P.Pos(inner.Pos()), "no such site found: "+badWhy)
+			} else if !bad {
+				c.OK(rule, FnName(inner)+": "+what, c.P.Pos(inner.Pos()), okWhy)
+			}
+		}
+		isSucc := func(in ssa.Instruction) bool {
+			for _, r := range succ {
+				if in == ssa.Instruction(r) {
+					return true
+				}
+			}
+			return false
+		}
+		check("setTx before fn", isSetTx, isFnCall, "ctx.setTx(tx) precedes fn(ctx) on every path", "fn(ctx) is reachable before ctx.setTx(tx)")
+		check("fn before pre-commit", isFnCall, isRunPre, "fn(ctx) precedes runPreCommitActions on every path", "runPreCommitActions is reachable without fn(ctx)")
+		check("pre-commit before success", isRunPre, isSucc, "every possibly-successful return is preceded by runPreCommitActions", "a successful return is reachable without running the pre-commit actions")
+		check("fn before success", isFnCall, isSucc, "every possibly-successful return is preceded by fn(ctx)", "a successful return is reachable without running fn(ctx)")
+	}
+}
+
+func anonFromArg(v ssa.Value) *ssa.Function {
+	switch x := v.(type) {
+	case *ssa.MakeClosure:
+		if f, ok := x.Fn.(*ssa.Function); ok {
+			return f
+		}
+	case *ssa.Function:
+		return x
+	}
+	return nil
+}
+
+// ---- C07.POSTCOMMIT --------------------------------------------------------------------------
+
+// postCommitOnly computes the greatest set of repository functions every reference to which is
+// either a registration with bbolt Tx.OnCommit or located in a function of the set.
+func postCommitOnly(c *Ctx) (set map[*ssa.Function]bool, refs map[*ssa.Function][]string) {
+	p := c.P
+	onCommit := p.ExtMethod(bboltPath, "Tx", "OnCommit")
+	cg := p.CallGraph()
+	type ref struct {
+		from *ssa.Function
+		reg  bool
+		pos  string
+	}
+	all := map[*ssa.Function][]ref{}
+	resolve := func(f *ssa.Function) *ssa.Function {
+		if f == nil {
+			return nil
+		}
+		if f.Synthetic != "" {
+			if obj, ok := f.Object().(*types.Func); ok && obj != nil {
+				if r := p.SSA.FuncValue(obj.Origin()); r != nil {
+					return r
+				}
+			}
+		}
+		if o := f.Origin(); o != nil {
+			return o
+		}
+		return f
+	}
+	var funcs []*ssa.Function
+	for _, fn := range cg.funcs {
+		funcs = append(funcs, fn)
+	}
+	for _, fn := range funcs {
+		if isControl(FnName(fn)) {
+			continue // positive controls must not influence the verdict on real code
+		}
+		for _, b := range fn.Blocks {
+			for _, in := range b.Instrs {
+				// function values created here
+				var operands []*ssa.Value
+				operands = in.Operands(operands)
+				isReg := isCallTo(in, onCommit)
+				for _, op := range operands {
+					if op == nil || *op == nil {
+						continue
+					}
+					var target *ssa.Function
+					switch v := (*op).(type) {
+					case *ssa.Function:
+						target = resolve(v)
+					case *ssa.MakeClosure:
+						// the closure value itself is counted where it is used
+						continue
+					}
+					if target == nil || target.Blocks == nil {
+						continue
+					}
+					// direct call or function value use
+					_, isMk := in.(*ssa.MakeClosure)
+					if isMk {
+						// in is the MakeClosure; who uses it?
+						mk := in.(*ssa.MakeClosure)
+						reg := true
+						n := 0
+						for _, r := range *mk.Referrers() {
+							if _, dbg := r.(*ssa.DebugRef); dbg {
+								continue
+							}
+							n++
+							if !isCallTo(r, onCommit) {
+								reg = false
+							}
+						}
+						all[target] = append(all[target], ref{fn, reg && n > 0, p.Pos(in.Pos())})
+						continue
+					}
+					all[target] = append(all[target], ref{fn, isReg && !isCallee(in, *op), p.Pos(in.Pos())})
+				}
+				// interface dispatch
+				if ci, ok := in.(ssa.CallInstruction); ok && ci.Common().IsInvoke() {
+					for _, t := range cg.CalleesOf(ci.Common()) {
+						all[t] = append(all[t], ref{fn, false, p.Pos(in.Pos())})
+					}
+				}
+			}
+		}
+	}
+	set = map[*ssa.Function]bool{}
+	for _, fn := range funcs {
+		if len(all[fn]) > 0 {
+			set[fn] = true
+		}
+	}
+	for changed := true; changed; {
+		changed = false
+		for fn := range set {
+			for _, r := range all[fn] {
+				if r.reg {
+					continue
+				}
+				if !set[r.from] {
+					delete(set, fn)
+					changed = true
+					break
+				}
+			}
+		}
+	}
+	refs = map[*ssa.Function][]string{}
+	for fn, rs := range all {
+		for _, r := range rs {
+			tag := "ref"
+			if r.reg {
+				tag = "OnCommit"
+			}
+			refs[fn] = append(refs[fn], fmt.Sprintf("%s in %s", tag, FnName(r.from)))
+		}
+	}
+	return set, refs
+}
+
+func isCallee(in ssa.Instruction, v ssa.Value) bool {
+	ci, ok := in.(ssa.CallInstruction)
+	return ok && ci.Common().Value == v
+}
+
+func rulePostCommit(c *Ctx, rule string) {
+	p := c.P
+	set, refs := postCommitOnly(c)
+	commitActions := p.Field("boltz", "mutateContext", "commitActions")
+	mc := p.Named("boltz", "MutateContext")
+	report := func(fn *ssa.Function, what string, pos string) {
+		name := FnName(fn)
+		c.Analysed(name)
+		if set[fn] {
+			c.OK(rule, name+": "+what, pos, "reachable only through a function value registered with bbolt Tx.OnCommit")
+		} else {
+			c.Bad(rule, name+": "+what, pos, fmt.Sprintf("post-commit work can run outside a commit hook: this function is not reachable only via tx.OnCommit registrations (references: %s)", strings.Join(refs[fn], "; ")))
+		}
+	}
+	for _, fn := range c.prodFuncs("boltz") {
+		readsCommitActions := false
+		for _, b := range fn.Blocks {
+			for _, in := range b.Instrs {
+				if fa, ok := in.(*ssa.FieldAddr); ok {
+					if f, _ := fieldOfAddr(fa); sameVar(f, commitActions) {
+						readsCommitActions = true
+					}
+				}
+			}
+		}
+		for _, ci := range callsIn(fn) {
+			cc := ci.Common()
+			if cc.IsInvoke() && cc.Method.Name() == "ProcessPostCommit" {
+				report(fn, "invokes ProcessPostCommit", p.Pos(ci.Pos()))
+				continue
+			}
+			if cc.IsInvoke() || cc.StaticCallee() != nil {
+				continue
+			}
+			if _, isBuiltin := cc.Value.(*ssa.Builtin); isBuiltin {
+				continue
+			}
+			sig := cc.Signature()
+			// commit actions: func() values called in a function that reads mutateContext.commitActions
+			if readsCommitActions && sig.Params().Len() == 0 && sig.Results().Len() == 0 {
+				report(fn, "runs commit actions", p.Pos(ci.Pos()))
+			}
+			// tx-complete listeners: func(MutateContext) values
+			if sig.Params().Len() == 1 && sig.Results().Len() == 0 && types.Identical(sig.Params().At(0).Type(), mc) {
+				report(fn, "runs tx-complete listeners", p.Pos(ci.Pos()))
+			}
+		}
+	}
+}
+
+func retains(t types.Type) bool {
+	switch t.Underlying().(type) {
+	case *types.Pointer, *types.Interface, *types.Struct, *types.Slice, *types.Map:
+		return true
+	}
+	return false
+}
+
+func isHolderIface(t types.Type) bool {
+	it, ok := t.Underlying().(*types.Interface)
+	if !ok {
+		return false
+	}
+	n := 0
+	for i := 0; i < it.NumMethods(); i++ {
+		switch it.Method(i).Name() {
+		case "SetError", "HasError", "GetError":
+			n++
+		}
+	}
+	return n == 3
 }
